@@ -196,3 +196,25 @@ def finish(pid, level, coverage, violations, assumptions=None, inconclusive=None
         sys.exit(2)
     print("OK property=%s tier=%s evaluations=%s wall=%.1fs" % (pid, tier(), cov.get("evaluations", cov.get("states")), time.time() - T0))
     sys.exit(0)
+
+
+def build_car():
+    """Builds the `car` CLI from /repo/cmd against /repo and /repo/v2 (scratch -modfile with replace
+    directives: /repo itself is never written, not even go.sum)."""
+    out = os.path.join(scratch(), "car")
+    if os.path.exists(out):
+        return out
+    mf = os.path.join(scratch(), "car.mod")
+    gm = open(os.path.join(REPO, "cmd", "go.mod")).read()
+    gm += "\nreplace github.com/ipld/go-car => %s\n\nreplace github.com/ipld/go-car/v2 => %s\n" % (REPO, os.path.join(REPO, "v2"))
+    open(mf, "w").write(gm)
+    sums = set()
+    for m in ("", "v2", "cmd"):
+        p = os.path.join(REPO, m, "go.sum")
+        if os.path.exists(p):
+            sums.update(open(p).read().splitlines())
+    open(os.path.join(scratch(), "car.sum"), "w").write("\n".join(sorted(s for s in sums if s.strip())) + "\n")
+    p = run(["go", "build", "-modfile", mf, "-o", out, "./car"], cwd=os.path.join(REPO, "cmd"), timeout=900)
+    if p.returncode != 0:
+        raise Inconclusive("car CLI build failed:\n" + p.stdout[-3000:])
+    return out
